@@ -210,9 +210,15 @@ func (fc *fallbackCache) Set(ctx context.Context, registry string, scheme Scheme
 		return "", err
 	}
 
-	return fc.secondary.Set(ctx, registry, scheme, key, func(ctx context.Context) (string, error) {
+	// The secondary cache may combine this Set with a concurrent one of
+	// another key and return that one's token: record the token there, but
+	// return the one that was fetched for this key.
+	if _, err := fc.secondary.Set(ctx, registry, scheme, key, func(ctx context.Context) (string, error) {
 		return token, nil
-	})
+	}); err != nil {
+		return "", err
+	}
+	return token, nil
 }
 
 // NewSingleContextCache creates a host-based cache for optimizing the auth flow for non-compliant registries.
